@@ -265,7 +265,7 @@ var c02Alphabet = []etok{{"i", "\"NULL\""}, {"c", "1"}, {"i", "a"}, {"o", "("}, 
 var c02Vocabulary = []etok{{"c", "1"}, {"c", "2.5"}, {"c", "'s'"}, {"c", "TRUE"}, {"c", "FALSE"}, {"i", "a"}, {"i", "b"}, {"i", "f"}, {"i", "\"q i\""},
 	{"i", "\" \""}, {"i", "\"\t\""}, {"i", "\"null\""}, {"i", "\"IS\""}, {"i", "\"not\""}, {"i", "\"and\""}, {"i", "\"In\""}, {"i", "\"like\""}, {"i", "\"true\""}, {"c", "'NULL'"}, {"c", "'and'"},
 	// literals and quoted names whose content begins or ends with an escaped quote, or is nothing but one
-	{"c", "''''"}, {"c", "'''a'"}, {"c", "'a'''"}, {"c", "'''a'''"}, {"i", "\"\"\"x\""}, {"i", "\"6\"\"\""}, {"i", "\"\"\"\""},
+	{"c", "''"}, {"c", "''''"}, {"c", "'''a'"}, {"c", "'a'''"}, {"c", "'''a'''"}, {"i", "\"\"\"x\""}, {"i", "\"6\"\"\""}, {"i", "\"\"\"\""},
 	{"o", "😀"}, {"o", "@"}, {"o", "$"}, {"o", "\uffff"}, {"o", "𝑥"}, {"o", "#"},
 	// characters that look blank but are not whitespace of the expression language (only U+0000..U+0020 is)
 	{"o", "\u00a0"}, {"o", "\u0085"},
